@@ -321,7 +321,7 @@ def scenario_obligations(sc, exp):
             _eqv(e[u.EXPLOIT_PROB], d['prob']), _eqv(e[u.EXPLOIT_COST], d['cost']),
             _eqv(e[u.EXPLOIT_ACCESS], d['access']),
             z3.BoolVal(not isinstance(e[u.EXPLOIT_ACCESS], str)))))
-    obl.append(('exploit_names', z3.BoolVal(list(sc.exploits.keys()) == list(exp['exploits'].keys()))))
+    obl.append(('exploit_names', z3.BoolVal(sorted(sc.exploits.keys()) == sorted(exp['exploits'].keys()))))
     for nm, d in exp['privescs'].items():
         e = sc.privescs.get(nm)
         if e is None:
@@ -332,14 +332,15 @@ def scenario_obligations(sc, exp):
             _eqv(e[u.PRIVESC_PROB], d['prob']), _eqv(e[u.PRIVESC_COST], d['cost']),
             _eqv(e[u.PRIVESC_ACCESS], d['access']),
             z3.BoolVal(not isinstance(e[u.PRIVESC_ACCESS], str)))))
-    obl.append(('privesc_names', z3.BoolVal(list(sc.privescs.keys()) == list(exp['privescs'].keys()))))
+    obl.append(('privesc_names', z3.BoolVal(sorted(sc.privescs.keys()) == sorted(exp['privescs'].keys()))))
     obl.append(('scan_costs', z3.And(_eqv(sc.service_scan_cost, exp['scan']['service']),
                                      _eqv(sc.os_scan_cost, exp['scan']['os']),
                                      _eqv(sc.subnet_scan_cost, exp['scan']['subnet']),
                                      _eqv(sc.process_scan_cost, exp['scan']['process']))))
     fw = sc.firewall
     obl.append(('subnet_firewall', z3.BoolVal(set(fw.keys()) == set(exp['fw'].keys()) and
-                                              all(list(fw[k]) == exp['fw'][k] for k in exp['fw'] if k in fw))))
+                                              all(sorted(fw[k]) == sorted(exp['fw'][k]) and len(fw[k]) == len(exp['fw'][k])
+                                                  for k in exp['fw'] if k in fw))))
     obl.append(('host_addresses', z3.BoolVal(sorted(sc.hosts.keys()) == sorted(exp['addrs']) and
                                              len(sc.hosts) == len(exp['addrs']))))
     for a, d in exp['hosts'].items():
@@ -349,9 +350,7 @@ def scenario_obligations(sc, exp):
         cfg_ok = (h.address == a and
                   {k: bool(v) for k, v in h.os.items()} == {o: o == d['os'] for o in exp['os']} and
                   {k: bool(v) for k, v in h.services.items()} == {s: s in d['services'] for s in services} and
-                  {k: bool(v) for k, v in h.processes.items()} == {p: p in d['processes'] for p in exp['processes']} and
-                  list(h.os.keys()) == exp['os'] and list(h.services.keys()) == services and
-                  list(h.processes.keys()) == exp['processes'])
+                  {k: bool(v) for k, v in h.processes.items()} == {p: p in d['processes'] for p in exp['processes']})
         obl.append(('host_config_%d_%d' % a, z3.BoolVal(bool(cfg_ok))))
         obl.append(('host_value_%d_%d' % a, _eqv(h.value, d['value'])))
         deny_ok = True
